@@ -353,7 +353,7 @@ Proof.
   - destruct (@as_real Xq v) as [x|]; [|discriminate].
     cbv zeta. destruct (pos (nmul x w)) eqn:P; intro E; inversion E; subst; split; auto;
       repeat constructor; auto; simpl; apply pos_okw; auto; apply xmul_fin_isinf; auto.
-  - destruct v as [x|s|b|]; try (intro E; inversion E; subst; split; auto; fail).
+  - destruct v as [x|s|b| |l]; try discriminate; try (intro E; inversion E; subst; split; auto; fail).
     destruct (nisnan x); [|discriminate]. intro E; inversion E; subst; split; auto.
   - intro E; inversion E; subst; split; auto.
     apply Forall_forall. intros o Ho. apply in_map_iff in Ho. destruct Ho as (? & <- & _). exact Hw.
